@@ -292,6 +292,12 @@ fn dfile_case(run: &mut Run, id: &str, lines: &[String]) {
         Ok(Ok(map)) => {
             run.line(id, format!("DFILE {req}"), dump(&map));
             run.count_n("dfile:objects", map.hit_objects.len() as u64);
+            if let Ok((n, names)) = crate::c06::float_leaves_finite(&map) {
+                run.count_n("wf:float-leaves-visited", n as u64);
+                for name in names {
+                    run.count(&format!("wf:float-field:{name}"));
+                }
+            }
             run.count_n("dfile:control-points", (map.timing_points.len() + map.difficulty_points.len() + map.effect_points.len()) as u64);
             if let Err(v) = wellformed(&map) {
                 run.fail("oracle:wellformed", "", id, v, text.clone());
